@@ -100,6 +100,16 @@ func (p *ECPoint) ValidateBasic() bool {
 	return p != nil && p.coords[0] != nil && p.coords[1] != nil && p.IsOnCurve()
 }
 
+// IsInPrimeOrderSubgroup reports whether the point has no small-order component. Only the Edwards
+// curve has a cofactor; its neutral element (0, 1) is an ordinary affine point, so N*P can be computed.
+func (p *ECPoint) IsInPrimeOrderSubgroup() bool {
+	if _, ok := p.curve.(*edwards.TwistedEdwardsCurve); !ok {
+		return true
+	}
+	x, y := p.curve.ScalarMult(p.X(), p.Y(), p.curve.Params().N.Bytes())
+	return x != nil && y != nil && x.Sign() == 0 && y.Cmp(big.NewInt(1)) == 0
+}
+
 func (p *ECPoint) EightInvEight() *ECPoint {
 	return p.ScalarMult(eight).ScalarMult(eightInv)
 }
